@@ -7,4 +7,5 @@ CONSTANTS
   MaxSteps = 1000
   Mode = "trace"
   RestoreOnException = TRUE
+  HandleCaptures = FALSE
 CHECK_DEADLOCK FALSE
